@@ -1044,6 +1044,8 @@ pub struct RandCfg {
     pub snap_every: u64,
     /// false: never clear (lets the tree grow large)
     pub clears: bool,
+    /// one in `clear_den` of the calls of the last group is a clear (default 5; small = clear churn)
+    pub clear_den: u64,
 }
 
 /// seeded random in-contract histories with handles held across insertions
@@ -1138,7 +1140,7 @@ pub fn run_random<C: OrdColl>(tr: &mut Trace, cfg: &RandCfg) {
                 }
             }
             _ => {
-                if cfg.clears && rng.chance(1, 5) {
+                if cfg.clears && rng.chance(1, cfg.clear_den.max(1)) {
                     s.apply(&OOp::Clear, 0);
                     held.clear();
                 } else {
